@@ -230,7 +230,7 @@ NAMELESS = {"FA0"}  # cited without party names
 RV = {"A": ("U.S.", "10"), "B": ("U.S.", "10"), "C": ("F.2d", "30"), "P": ("U.S.", "585"), "H": ("Hill", "10"), "O": ("F.3d", "40")}
 PAGE = {"A": 100, "B": 200, "C": 300, "P": None, "H": 100, "O": 400, "LAW": "nopage", "JRN": 1, "JP": "placeholder-journal"}
 SHORT = {"S_A": ("U.S.", "10", "Beta"), "S_amb": ("U.S.", "10", None), "S_C": ("F.2d", "30", None), "S_for": ("F.3d", "77", None),
-         "S_Cr": ("Cranch", "10", None), "S_P": ("U.S.", "585", None), "S_far": ("F.2d", "30", None)}
+         "S_Cr": ("Cranch", "10", None), "S_P": ("U.S.", "585", None), "S_far": ("F.2d", "30", None), "S_ser": ("F.3d", "30", None)}
 SUPRA = {"SU_B": "Delta", "SU_amb": "Alpha", "SU_unk": "\u0417\u0435\u0442\u0430", "SU_O": "D'Arcy", "SU_vol": "Alpha"}
 REFS = {"REF_B": "Gamma", "REF_O": "O'Brien"}
 IDPIN = {"ID": None, "ID_ok": 101, "ID_far": 999, "ID_edge": 251, "ID_bad": "bad"}
